@@ -24,6 +24,10 @@ func c16Gen(g *G) {
 	// compressed messages whose framing is fine and whose stream is damaged; containers inside containers, deep,
 	// repeatedly, with the answer itself nested
 	g.Emit("c16.run o,o g0;w1;zt;zc;c(zt,p);a0;j;g1;w2;a1", "damaged-gzip")
+	// the application (or a PHONE_MIGRATE answer) reconnects from its own goroutine while the receive goroutine
+	// is between two reads of the connection; later requests complete
+	g.Emit("c16.run o,o g0;w1;a0;j;yR*:3000:1;p;s500;X;g1;w2;a1", "reconnect-from-another-goroutine")
+	g.Emit("c16.run o,o,o g0;w1;a0;j;X;g1;w2;a1;j;yR*:2000:2;p;s300;X;X;g2;w3;a2", "reconnect-from-another-goroutine")
 	// an rpc_result cut at every length (the client looks into it before decoding it)
 	g.Emit("c16.run o,o tr4;tr5;tr6;tr7;tr8;tr9;tr10;tr11;tr12;g1;w1;c(tr8,tr13,a1)", "truncated-rpc-result")
 	g.Emit("c16.run o,o N5(u);N6(x);N7(p);N5(n88);g1;w1;c(p,a1)", "nested-containers")
